@@ -308,6 +308,12 @@ class Interp:
                     fr.locals[p] = Cell(Sym(p), Sym(p))
             if fi.cls is not None and fi.params and fi.params[0] in ("self", "cls"):
                 run.tpos.setdefault(fi.params[0], {fi.cls.qual})
+            anc = fi.parent
+            while anc is not None:
+                if anc.cls is not None and anc.params and anc.params[0] == "self":
+                    run.tpos.setdefault("self", {anc.cls.qual})
+                    break
+                anc = anc.parent
             try:
                 run.bind_param_types(fr)
                 v = run.exec_function_body(fr)
